@@ -128,8 +128,20 @@ def worker(unit, emit):
         nums += lib.pick(lib.corpus(wname, w), p['bases'], rnd)
         for m in mods:
             nums += synth_valid(m, rnd)
-        for x0 in dict.fromkeys(nums):
-            for x in variants(x0, rnd):
+        # numbers behind the checksum gate: every digit at the first positions (type / range digits) of valid numbers of
+        # each part with the check digit recomputed by that part's generator -- where a wrapper that re-implements the
+        # shared checksum but forgets a part's own rules shows
+        regen = []
+        for n, m in zip(parts, mods):
+            for x0 in lib.pick(lib.corpus(n, m), 3, rnd) + synth_valid(m, rnd, 1):
+                try:
+                    v0 = m.validate(x0)
+                except Exception:
+                    continue
+                regen += [x for x, _d in ac.regenerated(n, m, v0, positions=range(0, min(len(v0), 4)))]
+        items = [x for x0 in dict.fromkeys(nums) for x in variants(x0, rnd)] + list(dict.fromkeys(regen))
+        for x in items:
+            if True:
                 wr = lib.call(w.validate, x)
                 prs = [lib.call(m.validate, x) for m in mods]
                 e = {'kind': 'union', 'wr': sl(wr), 'parts': [sl(r) for r in prs], 'ordered': ordered, 'names': [n.split('.')[-1] for n in parts],
